@@ -35,6 +35,8 @@ func setBridger(claim crosschaintypes.ExternalClaim, bridger, chain string) {
 		c.BridgerAddress, c.ChainName = bridger, chain
 	case *crosschaintypes.MsgSendToExternalClaim:
 		c.BridgerAddress, c.ChainName = bridger, chain
+	case *crosschaintypes.MsgBridgeCallResultClaim:
+		c.BridgerAddress, c.ChainName = bridger, chain
 	case *crosschaintypes.MsgOracleSetUpdatedClaim:
 		c.BridgerAddress, c.ChainName = bridger, chain
 	case *crosschaintypes.MsgBridgeCallClaim:
@@ -51,6 +53,8 @@ func setNonce(claim crosschaintypes.ExternalClaim, nonce, height uint64) {
 	case *crosschaintypes.MsgBridgeTokenClaim:
 		c.EventNonce, c.BlockHeight = nonce, height
 	case *crosschaintypes.MsgSendToExternalClaim:
+		c.EventNonce, c.BlockHeight = nonce, height
+	case *crosschaintypes.MsgBridgeCallResultClaim:
 		c.EventNonce, c.BlockHeight = nonce, height
 	case *crosschaintypes.MsgOracleSetUpdatedClaim:
 		c.EventNonce, c.BlockHeight = nonce, height
